@@ -30,6 +30,11 @@ def run_server(prop, mode, tier, seed, replay, rule, nontrivial):
     for (line, fl) in v.fails:
         for cl in fl["clauses"]:
             q = fl["q"]
+            if cl.startswith("tilesjson"):
+                continue      # the served tiles.json is judged for C17 (checks/c17.py runs the same stage)
+            if cl.startswith("api_"):
+                run.observation(cl, {"target": fl["target"], "index": q.get("index"), "ids": q.get("ids"), "status": q.get("status"), "unknown": q.get("unknown")})
+                continue
             rec = {"clause": cl, "target": fl["target"], "resp": fl["resp"], "q": q, "src": q["src"]["id"]}
             if "flags" in q:
                 rec["flip"] = q["flags"]["flip"]
